@@ -628,6 +628,17 @@ impl RoutingThread {
             }
         }
     }
+    /// verification hook (cfg saito_verif, tests only): lets the in-crate replay modules drive the
+    /// ghost-chain handler of a lite node on the test harness, whose configuration is a full node's
+    #[cfg(all(test, saito_verif))]
+    pub(crate) async fn verif_process_ghost_chain(
+        &mut self,
+        chain: GhostChainSync,
+        peer_index: u64,
+    ) {
+        self.process_ghost_chain(chain, peer_index).await
+    }
+
     async fn process_ghost_chain(&mut self, chain: GhostChainSync, peer_index: u64) {
         debug!("processing ghost chain from peer : {:?}", peer_index);
 
